@@ -123,7 +123,7 @@ func (k *poClient) Instr(s poState, in ssa.Instruction) (poState, bool, []poStat
 	if sc == nil {
 		return s, true, nil
 	}
-	switch sc.Name() {
+	switch core.FuncName(sc) {
 	case "popState", "onValue":
 		s.reported = true
 	case "pop":
@@ -145,17 +145,17 @@ func popOrder(p *core.Prog, r *core.Result) {
 			for _, in := range b.Instrs {
 				if c, ok := in.(*ssa.Call); ok {
 					if sc := c.Common().StaticCallee(); sc != nil {
-						if sc.Name() == "pop" && sc.Signature.Recv() != nil && namedOf(sc.Signature.Recv().Type()) != nil && namedOf(sc.Signature.Recv().Type()).Obj().Name() == "lengthStack" {
+						if core.FuncName(sc) == "pop" && sc.Signature.Recv() != nil && namedOf(sc.Signature.Recv().Type()) != nil && namedOf(sc.Signature.Recv().Type()).Obj().Name() == "lengthStack" {
 							hasPop = true
 						}
-						if sc.Name() == "popState" || sc.Name() == "onValue" {
+						if core.FuncName(sc) == "popState" || core.FuncName(sc) == "onValue" {
 							hasRep = true
 						}
 					}
 				}
 			}
 		}
-		if !hasPop || !hasRep || f.Name() == "popState" || f.Name() == "onValue" {
+		if !hasPop || !hasRep || core.FuncName(f) == "popState" || core.FuncName(f) == "onValue" {
 			continue
 		}
 		n++
@@ -711,10 +711,10 @@ func (k *saClient) Instr(s saState, in ssa.Instruction) (saState, bool, []saStat
 	if sc == nil || len(c.Common().Args) == 0 {
 		return s, true, nil
 	}
-	if (sc.Name() == "push" || sc.Name() == "pop") && sc.Signature.Recv() != nil {
+	if (core.FuncName(sc) == "push" || core.FuncName(sc) == "pop") && sc.Signature.Recv() != nil {
 		if f := fieldOfReceiver(k.fn, c.Common().Args[0]); f != "" && k.c.counters[f] {
 			d := 1
-			if sc.Name() == "pop" {
+			if core.FuncName(sc) == "pop" {
 				d = -1
 			}
 			return s.add(f, d), true, nil
@@ -722,7 +722,7 @@ func (k *saClient) Instr(s saState, in ssa.Instruction) (saState, bool, []saStat
 	}
 	if sc.Signature.Recv() != nil && namedOf(sc.Signature.Recv().Type()) == k.c.recv && c.Common().Args[0] == ssa.Value(k.fn.Params[0]) {
 		// reporting the completed value upwards and handing over to a body step are kept as symbols
-		if sc.Name() == "popState" || sc.Name() == "onValue" {
+		if core.FuncName(sc) == "popState" || core.FuncName(sc) == "onValue" {
 			return s.add("<value reported to the parent>", 1), true, nil
 		}
 		if k.steps[sc] {
